@@ -3,7 +3,7 @@ C17 — VecEnv wrappers keep the contract and transform terminal observations al
 
 Implementation under test: VecFrameStack/StackedObservations, VecTransposeImage, VecExtractDictObs, VecMonitor,
 VecCheckNan (stable_baselines3/common/vec_env/), stacked in any type-correct order over a DummyVecEnv
-(thorough tier: also SubprocVecEnv) of scripted environments.
+(also: a float64-reward DummyVecEnv variant and SubprocVecEnv, whose rewards are not float32) of scripted environments.
 Model: lean/SB3Verif/Model/Wrappers.lean (driver lean/SB3Verif/Driver/C17.lean)
 
 Three parties see every case:
@@ -29,7 +29,9 @@ RULE = (
     "grayscale, uint8 non-image, Dict of them, Box with bounds that differ along the stacking axis, Box whose bounds "
     "exclude 0), n_envs 1-3, a type-correct stack of 0-4 wrappers from {VecFrameStack(n_stack 1-5, channels_order "
     "None/first/last/per-key dict), VecTransposeImage(skip or not), VecExtractDictObs, VecMonitor, VecCheckNan}, "
-    "per-env episode scripts (length-1 episodes, terminated and/or truncated, never ending, ...), a history of "
+    "base VecEnv DummyVecEnv (float32 rewards) / a float64-reward DummyVecEnv variant and SubprocVecEnv (rewards not "
+    "representable in float32), per-env episode scripts (length-1 episodes, terminated and/or truncated, never ending, "
+    "...), a history of "
     "reset()/step() calls incl. resets in mid-episode; every returned observation, reward, done, info entry and the "
     "declared observation space are compared with the Lean model (exactly) and with the specification-level reference. "
     "non-trivial = a VecFrameStack with n_stack >= 2 inside a stack of >= 2 wrappers sees an episode end whose whole "
@@ -444,7 +446,8 @@ class RefMonitor:
 
     def step(self, i, r):
         r = dict(r)
-        self.ret[i] += r["rew"]
+        # `self.episode_returns += rewards` on a float32 array: the sum is rounded to float32 at every step
+        self.ret[i] = float(np.float32(self.ret[i] + r["rew"]))
         self.len[i] += 1
         if r["done"]:
             r["episode"] = (self.ret[i], self.len[i])
@@ -730,8 +733,9 @@ def oracle(ctx, case, impl):
                     short = True
                 ep_len[i] = 0
             if got["rew"] != b["rew"] or got["rew_dtype"] != b["rew_dtype"]:
-                rep.violation("reward changed by the wrapper stack", case, dict(sig0, kind="reward"),
-                              dict(where, impl=got["rew"], base=b["rew"]))
+                rep.violation("reward changed by the wrapper stack (value or dtype)", case, dict(sig0, kind="reward"),
+                              dict(where, impl=got["rew"], base=b["rew"], impl_dtype=got["rew_dtype"],
+                                   base_dtype=b["rew_dtype"], vecenv=base_of(case)))
                 return
             if got["done"] != b["done"] or got["done_dtype"] != b["done_dtype"]:
                 rep.violation("done flag changed by the wrapper stack", case, dict(sig0, kind="done"), where)
@@ -740,8 +744,9 @@ def oracle(ctx, case, impl):
                 rep.violation("TimeLimit.truncated changed by the wrapper stack", case, dict(sig0, kind="truncated"),
                               dict(where, impl=got["trunc"], base=b["trunc"]))
                 return
-            if got["payload"] != b["payload"]:
-                rep.violation("other info entries changed by the wrapper stack", case, dict(sig0, kind="info"), where)
+            if got["payload"] != b["payload"] or got["rest"] != b["rest"]:
+                rep.violation("other info entries changed by the wrapper stack", case, dict(sig0, kind="info"),
+                              dict(where, impl=str(got["rest"]), base=str(b["rest"])))
                 return
             if not same_obs(got["obs"], exp["obs"]):
                 rep.violation("step() observation differs from the specification (latest frames of the current episode, "
@@ -810,11 +815,17 @@ def compare_model(ctx, case, impl, mouts):
                 return
         else:
             got = []
-            for r in out["recs"]:
-                got.append({"obs": obs_j(r["obs"]), "rew": int(round(r["rew"] * 4)), "done": r["done"],
+            exact_sum = base_of(case) == "dummy"   # float64 bases: the model's integer reward codes are opaque,
+            for r in out["recs"]:                  # VecMonitor's float32 sum is checked by the oracle's reference
+                got.append({"obs": obs_j(r["obs"]), "rew": rew_code(case, r["rew"]), "done": r["done"],
                             "term": None if r["term"] is None else obs_j(r["term"]), "trunc": bool(r["trunc"]),
-                            "episode": None if r["episode"] is None else [int(round(r["episode"][0] * 4)), r["episode"][1]],
+                            "episode": None if r["episode"] is None else [
+                                int(round(r["episode"][0] * 4)) if exact_sum else None, r["episode"][1]],
                             "payload": r["payload"]})
+            if not exact_sum:
+                for m in mo["recs"]:
+                    if m.get("episode") is not None:
+                        m["episode"] = [None, m["episode"][1]]
             if got != mo["recs"]:
                 bad = next(i for i in range(len(got)) if got[i] != mo["recs"][i])
                 rep.disagree("step", case, got[bad], mo["recs"][bad], note=f"op {t} env {bad}")
@@ -849,7 +860,7 @@ def check_cases(ctx, cases):
         rep.count(f"base:{case['kind']}")
         rep.count(f"n_envs={case['n_envs']}")
         rep.count(f"stack_len={len(ws)}")
-        rep.count("vecenv:" + ("subproc" if case.get("subproc") else "dummy"))
+        rep.count("vecenv:" + base_of(case))
         for w in ws:
             rep.count("w:" + w["w"] + ("(skip)" if w.get("skip") else ""))
             if w["w"] == "frameStack":
